@@ -263,9 +263,18 @@ def check(col: Collector, tier: str):
     col.add("C10.R6", ba.short, "arrow-iff-any-indirection", ok, "`->` when depth > 0, `.` otherwise", ba.loc)
     check_parse_type(col, "C10.R6", repo)
     dv = repo.function("dereference_var")
-    s = src(dv.node)
-    ok = "'*' + new_v._expression" in s.replace('"', "'") and "get_dereferenced_type()" in s and "if not v.cpp_type().is_a_pointer" in s
-    col.add("C10.R6", dv.short, "star-prefix-and-one-level-less", ok, "", dv.loc)
+    pmd_ = parent_map(dv.node)
+    prm_ = dv.node.args.args[0].arg
+    # the copy gets "*" + its expression and the type one level lower, but only for pointers; a non-pointer is handed back as it is
+    star = [n for n in walk_no_nested(dv.node) if isinstance(n, ast.Assign) and src(n.targets[0]).endswith("._expression")
+            and shape(parts(dv.node, n.value))[:1] == ["*"] and src(n.targets[0]) in src(n.value)]
+    lower = [n for n in walk_no_nested(dv.node) if isinstance(n, ast.Assign) and src(n.targets[0]).endswith("._cpp_type")
+             and isinstance(n.value, ast.Call) and call_name(n.value) == "get_dereferenced_type"]
+    is_ptr = lambda n, want: any(src(t) == f"{prm_}.cpp_type().is_a_pointer" and tr_ is want for t, tr_ in guards(dv.node, n, pmd_))
+    asis = [r for r in walk_no_nested(dv.node) if isinstance(r, ast.Return) and src(r.value) == prm_]
+    ok = len(star) == 1 and len(lower) == 1 and is_ptr(star[0], True) and is_ptr(lower[0], True) and len(asis) == 1 and is_ptr(asis[0], False)
+    col.add("C10.R6", dv.short, "star-prefix-and-one-level-less", ok,
+            "a pointer-typed value is copied, its expression prefixed with '*' and its type lowered by one level; anything else is returned unchanged", dv.loc)
     gd = repo.find_class("terminal").methods["get_dereferenced_type"]
     s = src(gd.node)
     col.add("C10.R6", "terminal.get_dereferenced_type", "depth-lowered-by-one-on-a-copy", "new_t._p_depth -= 1" in s and "copy.copy(self)" in s and "raise" in s, "", gd.loc)
